@@ -64,7 +64,13 @@ V21 == Val("int", 1, ABIs(LStr("")), TRUE)              \* (1, {"a": {"b": ""}})
 V22 == [Val("str", 1, ABIs(LStr("x")), TRUE) EXCEPT !.sub = "duck"]           \* Pair("s", OrderedDict(a={"b": "x"}))
 V23 == [Val("int", 2, AIs(Empty), TRUE) EXCEPT !.sub = "duck"]                \* Pair(2, OrderedDict(a={}))
 V24 == [Val("list", 2, Empty, FALSE) EXCEPT !.sub = "listpair"]               \* [1, {"a": {}}]
-AllVals == <<V1, V2, V3, V4, V5, V6, V7, V8, V9, V10, V11, V12, V13, V14, V15, V16, V17, V18, V19, V20, V21, V22, V23, V24>>
+\* context values that contain the last level of a string specification without being equal to it
+V25 == Val("int", 1, ABIs(LStr("xy")), TRUE)            \* (1, {"a": {"b": "xy"}})
+V26 == Val("int", 0, ABIs(LListX), TRUE)                \* (0, {"a": {"b": ["x"]}})
+V27 == Val("str", 1, ABIs(LTupX), TRUE)                 \* ("s", {"a": {"b": ("x", "x")}})
+V28 == Val("int", 1, AIs(LStr("None.")), TRUE)          \* (1, {"a": "None."})
+AllVals == <<V1, V2, V3, V4, V5, V6, V7, V8, V9, V10, V11, V12, V13, V14, V15, V16, V17, V18, V19, V20, V21, V22, V23, V24,
+             V25, V26, V27, V28>>
 
 \* constant leaves: every outcome combination of the items of a container
 AbsLeaves == {Fn("yes"), Fn("no"), Fn("boom")}
@@ -104,6 +110,7 @@ MCItems3(u) == AbsLeaves \cup
 MCDepth3(u) == ObjsOver(MCItems3(u), 2)
 \* Filter universes
 FilterAsts(u) == ObjsOver({Fn("len"), Fn("pos")}, 2) \cup SCFew \cup SCNone \cup {Sel(Str(A1), TRUE), NotO(SC(AB, "isnone", TRUE), TRUE)}
+                 \cup {Sel(Str(ABX), TRUE), NotO(Str(ABX), FALSE)}
 
 \* export universes (S2C): concrete leaves, all eight values per specification
 ExDepth1(u) == ObjsOver(ConcLeaves, 2) \cup SCs
@@ -135,7 +142,7 @@ Asts == CASE U = "mc1" -> MCDepth1(U) [] U = "mc2q" -> MCDepth2q(U) [] U = "mc2"
           [] U = "ex1" -> ExDepth1(U) [] U = "ex2q" -> ExDepth2q(U) [] U = "ex23q" -> ExDepth2q(U) \cup ExDepth3(U) [] U = "ex2" -> ExDepth2(U) [] U = "ex3" -> ExDepth3(U)
 Flows == CASE F = "one" -> {<<V3>>, <<V2>>, <<V12>>}
            [] F = "two" -> {<<V2>>, <<V12>>}
-           [] F = "tiny" -> SeqsUpTo({V3, V4, V12}, 2)
+           [] F = "tiny" -> SeqsUpTo({V3, V4, V12, V25}, 2)
            [] F = "small" -> SeqsUpTo({V2, V3, V4, V6, V12}, 3)
            [] F = "big" -> SeqsUpTo({V1, V2, V3, V4, V6, V8, V12}, 4)
 
